@@ -458,4 +458,52 @@ def Heap.runShared (σ : Heap) : List DeriveOp → Heap
   | [] => σ
   | op :: rest => (σ.stepShared op).runShared rest
 
+/-! ## one object, regimens chosen in turn, solved again for the same parameters and times -/
+
+/-- a call on ONE model object: a regimen is chosen (`set_dosing_regimen`, numbers or a protocol), or the
+    model is solved for a request `q` (the parameter vector and the time grid: an opaque token — the
+    same token = exactly the same parameters and times) -/
+inductive SimCall where
+  | set (r : Regimen)
+  | solve (q : Nat)
+
+/-- the regimen in force after a history of calls on an object that held `r` -/
+def simRegimen (r : Regimen) : List SimCall → Regimen
+  | [] => r
+  | .set r' :: rest => simRegimen r' rest
+  | .solve _ :: rest => simRegimen r rest
+
+/-- what every `solve` of the history is run with, `(request, regimen)`: `simulate` resets the solver
+    and runs it with the protocol attached THEN; nothing of an earlier solve is kept -/
+def simTrace (r : Regimen) : List SimCall → List (Nat × Regimen)
+  | [] => []
+  | .set r' :: rest => simTrace r' rest
+  | .solve q :: rest => (q, r) :: simTrace r rest
+
+/-- NOT what chi does — the last solution is remembered together with its request and handed out
+    again when the same request comes, and choosing a regimen does not drop it
+    (`C10_resimulate_memo_counterexample`) -/
+def simTraceMemo (memo : Option (Nat × Regimen)) (r : Regimen) : List SimCall → List (Nat × Regimen)
+  | [] => []
+  | .set r' :: rest => simTraceMemo memo r' rest
+  | .solve q :: rest =>
+    match memo with
+    | some (q', r0) =>
+      if q = q' then (q, r0) :: simTraceMemo memo r rest
+      else (q, r) :: simTraceMemo (some (q, r)) r rest
+    | none => (q, r) :: simTraceMemo (some (q, r)) r rest
+
+/-- the same memo, dropped whenever a regimen is chosen: indistinguishable from no memo
+    (`C10_resimulate_memo_dropped`) -/
+def simTraceMemoDropped (memo : Option (Nat × Regimen)) (r : Regimen) :
+    List SimCall → List (Nat × Regimen)
+  | [] => []
+  | .set r' :: rest => simTraceMemoDropped none r' rest
+  | .solve q :: rest =>
+    match memo with
+    | some (q', r0) =>
+      if q = q' then (q, r0) :: simTraceMemoDropped memo r rest
+      else (q, r) :: simTraceMemoDropped (some (q, r)) r rest
+    | none => (q, r) :: simTraceMemoDropped (some (q, r)) r rest
+
 end ChiModel.Dosing
